@@ -417,6 +417,8 @@ MULTI = {
         # the other kind of quote inside a literal, next to a comment with an apostrophe and a literal with an exclamation mark
         "quo.f90": "program quo\n  integer :: nq\n  nq = 1\n  print *, \"nq wasn't zero\", nq  ! nq isn't zero here\n"
                    "  print *, \"nq isn't done\", 'stop!', nq\nend program quo\n",
+        # an ASSOCIATE selector spelled like the associate name is the variable of the enclosing scope
+        "asc.f90": "program asc\n  integer :: xs, ys\n  xs = 1\n  associate (xs => xs + 1, zs => ys)\n    ys = xs + zs\n  end associate\n  ys = xs\nend program asc\n",
         "z_last.f90": "subroutine z_last()\n  use shp\n  type(circle) :: c\n  call c%area()\nend subroutine z_last\n"},
     "expect": {
         "x": [("a.f90", 1, 13), ("a.f90", 2, 2), ("a.f90", 3, 18), ("a.f90", 4, 19), ("a.f90", 5, 11), ("a.f90", 6, 22)],
@@ -425,6 +427,8 @@ MULTI = {
         "width@dummy": [("kw_m.f90", 2, 18), ("kw_m.f90", 3, 27), ("kw_m.f90", 4, 13), ("kw_m.f90", 7, 14), ("kw_main.f90", 4, 12), ("kw_main.f90", 5, 12)],
         "width@local": [("kw_main.f90", 2, 13), ("kw_main.f90", 3, 2), ("kw_main.f90", 5, 20)],
         "nq": [("quo.f90", 1, 13), ("quo.f90", 2, 2), ("quo.f90", 3, 29), ("quo.f90", 4, 37)],
+        "xs@outer": [("asc.f90", 1, 13), ("asc.f90", 2, 2), ("asc.f90", 3, 19), ("asc.f90", 6, 7)],
+        "xs@assoc": [("asc.f90", 3, 13), ("asc.f90", 4, 9)],
         "area": [("b_first.f90", 3, 9), ("b_first.f90", 4, 7), ("shp.f90", 4, 17), ("shp.f90", 7, 13), ("shp.f90", 10, 17),
                  ("z_last.f90", 3, 9)]},
 }
